@@ -94,3 +94,16 @@ CONFIG["C05"] = {
     "counter_floors": {"quick": {"executed.case": 1000, "executed.disconnect": 500, "variant.shift-input": 2000, "variant.dirty-frames": 2000, "verdict.assert": 100, "verdict.jet-failed": 100},
                        "thorough": {"executed.case": 50000, "executed.disconnect": 20000}},
 }
+
+CONFIG["C04"] = {
+    "budget_s": {"quick": 120, "thorough": 1800},
+    "floor": {"quick": 15000, "thorough": 500000},
+    "rule": ("a case is a combinator DAG: (i) arbitrary bottom-up random DAGs of 2..40 (thorough 200) nodes over all combinators, words, fail, witness, disconnect with and without branch and "
+             "Core/Elements jets as typed leaves, (ii) type-directed well-typed programs, one third of them with one node mutated, (iii) occurs-check seeds, sharing towers and chains by depth, "
+             "(iv) two deep well-typed families at depths 100..160000. Every node reachable from the root is constructed exactly once, in the natural order and in 3 (thorough 11) further random "
+             "topological orders, each in a fresh context, then finalised (as program or not). Oracle: work-list unification + occurs check + defaulting of free variables to unit; "
+             "acceptance must agree, every visited node's arrow must equal the model's principal solution and satisfy its combinator's typing rule, all orders must agree, errors must display in < 1 MiB, no panic. "
+             "Non-trivial: >= 3 nodes; distinct: distinct DAG renderings."),
+    "assumptions": COMMON_ASSUMPTIONS + ["nodes that a commitment-time finalisation does not visit (right branches of disconnect) contribute constraints but are not occurs-checked, mirroring what finalisation walks"],
+    "counter_floors": {"quick": {"model.occurs": 200, "model.well-typed": 5000, "model.clash": 5000}, "thorough": {"model.occurs": 5000}},
+}
